@@ -122,6 +122,16 @@ static void quintics(unsigned long long& unit)
 static void special_structures(unsigned long long& unit)
 {
 	long long cases = 0, evals = 0;
+	// (0) explicit depths around the default with a request that cannot be met: the count stays within 2^(depth+2)+1
+	for(int depth : {18, 19, 20, 21})
+		for(double eps : {1e-18, -1e-16, 0.0})
+		{
+			if(!mc::mine(unit++)) continue;
+			auto f = [](double x) { return std::sqrt(std::fabs(x - 1.0 / 3)) + std::sin(40 * x); };
+			std::string ck = "unreachable_request,depth=" + std::to_string(depth) + ",eps=" + mc::dec(eps);
+			structural("special", ck, ck, f, 0.0, 1.0, eps, depth, evals);
+			cases++;
+		}
 	// (a) polynomials of degree <= 5 that vanish on a subset of the first five Simpson abscissae a, a+h/4, m, b-h/4, b
 	std::vector<std::pair<double, double>> ivs = {{0, 1}, {-1, 1}, {-1, 2}, {2, -1}, {3, 3.5}};
 	for(auto& iv : ivs)
